@@ -435,7 +435,7 @@ class World:
         elif act == 'back':
             u = self.up[a['n']]
             u.open = True
-            u.version += a.get('newver', 0)
+            u.version = a.get('ver', u.version)
         elif act == 'wait':
             s.sleep(a['d'])
         elif act in ('act', 'deact', 'desc'):
@@ -646,7 +646,8 @@ LAYOUTS = {
     'Coll': {'nodes': {'A': ['ma', 'mx'], 'B': ['mx']}, 'conns': ['c1', 'c2']},
     'ABdown': {'nodes': {'A': ['ma'], 'B': ['mb']}, 'conns': ['c1', 'c2'], 'startdown': ['B']},
 }
-ORDER = ('excs', 'init', 'rep', 'routed', 'desc', 'restart', 'st', 'active', 'cache', 'out', 'dt')
+HIDDEN = 'not reachable'
+ORDER = ('excs', 'init', 'misrouted', 'rep', 'routed', 'desc', 'restart', 'st', 'active', 'cache', 'out', 'dt')
 
 
 def gamma(a):
@@ -675,6 +676,11 @@ def compare(w, a, exp, obs):
     diff = {}
     if obs['excs']:
         diff['excs'] = obs['excs'][0][:60]
+    if exp['restart']:
+        # the router asked to be restarted: what it does until then is not specified
+        if obs['restarts'] != 1:
+            diff['restart'] = 'requested %dx, expected once' % obs['restarts']
+        return diff
     if exp['st'] != obs['st']:
         diff['st'] = ','.join('%s:%s/%s' % (n, exp['st'][n], obs['st'].get(n)) for n in sorted(exp['st'])
                               if exp['st'][n] != obs['st'].get(n))
@@ -682,7 +688,7 @@ def compare(w, a, exp, obs):
         diff['active'] = 'expected %s' % sorted(exp['active'])
     if exp['restart'] != (obs['restarts'] > 0) or obs['restarts'] > 1:
         diff['restart'] = 'requested %dx, expected %s' % (obs['restarts'], exp['restart'])
-    bad = [c for c in exp['cache'] if obs['cache'].get('%s.%s:%s' % (c['n'], c['m'], c['p'])) != c['en']]
+    bad = [c for c in exp['cache'] if c['vis'] and obs['cache'].get('%s.%s:%s' % (c['n'], c['m'], c['p'])) != c['en']]
     if bad or obs.get('cache_extra'):
         c = bad[0] if bad else None
         diff['cache'] = 'extra keys' if not bad else '%s:%s expected %s got %s' % (
@@ -695,7 +701,8 @@ def compare(w, a, exp, obs):
         else:
             ok = r['a'] == er['a'] and r['v'] == er['v'] and not r['e']
         if not ok or r['spec'] != '%s:%s' % (a['m'], a['p']):
-            diff['rep'] = ('%s %s' % (r['e'] or '%s %s' % (r['a'], r['v']), r.get('text', ''))).strip()
+            diff['rep'] = ('%s %s' % (r['e'] or '%s %s' % (r['a'], r['v']), r.get('text', ''))).strip().replace(
+                repr(a['m']), '<module>')
         if obs['dt'] > 100:
             diff['dt'] = 'request took %d ticks' % obs['dt']
     elif act in ('act', 'deact'):
@@ -721,7 +728,12 @@ def compare(w, a, exp, obs):
                 diff['desc'] = '; '.join(how)
     routed = sorted([r['n'], r['k'], '%s:%s' % (r['m'], r['p']), r['arg']] for r in exp['routed'])
     if routed != obs['routed']:
-        diff['routed'] = 'to %s expected %s' % (sorted({r[0] for r in obs['routed']}), sorted({r[0] for r in routed}))
+        wrong = sorted({r[0] for r in obs['routed']} - {r[0] for r in routed})
+        if wrong:
+            diff['misrouted'] = 'request sent to %s, owner is %s' % (wrong, sorted({r[0] for r in routed}) or (
+                HIDDEN if act == 'req' else 'nobody'))
+        else:
+            diff['routed'] = 'sent %s expected %s' % ([r[1:] for r in obs['routed']], [r[1:] for r in routed])
     # update streams, per connection and per parameter name
     want = {}
     for o in exp['out']:
